@@ -50,6 +50,9 @@ var plans = map[string]Plan{
 	"C15": {Jobs: []Job{{World: "wbuild", Params: "mode=twin,max_targets=5", Share: 0.6}, {World: "wbuild", Params: "mode=faults,load=minimal,max_targets=5", Share: 0.4}}, Level: "exploration",
 		Rule: buildRule + faultRule + " C15: twin worlds - the same universe and history run in lock-step on machine A (load_outputs=all) and machine B (minimal), separate caches and workspaces, independent schedules: same exit status, same multiset of executed commands, every materialised output of a selected target equal; in both worlds every executed command must find its direct dependencies' outputs (also through aliases) present and current; second job: minimal mode under cache faults.",
 		Real: realBuild, Stub: stubBuild, Assume: append([]string{"twin runs exclude features that make the two worlds legitimately diverge: commands changing the shared external state (checks), external failures, cache-disabled builds, fail-fast"}, buildAssume...), QuickS: 45, ThoroughS: 1200},
+	"C08": {Jobs: []Job{{World: "wbuild", Params: "mode=remote,max_targets=5", Share: 0.6}, {World: "wbuild", Params: "mode=remote,focus=faults,max_targets=5", Share: 0.4}}, Level: "fault_enumeration",
+		Rule: buildRule + " C08: two machines with the same workspace identity (same absolute workspace path, checkouts swapped in and out, separate local cache roots) sharing an in-memory S3 object store behind grog's S3Client interface; histories interleave builds on A and B, edits, output wipes, and A optionally starting without the remote. After every successful build with the remote configured: every remote target result decodes and every blob it references (through trees) is present remotely; a machine may not execute what the remote certainly holds (shared cache model), restores byte-identical outputs, and its local cache holds the blobs it had to read. Fault runs: remote Get / Put (not applied, applied-but-error) / Head errors, mid-stream read errors, latency on the fake clock: degrade to a miss or a reported failure, never wrong bytes or a hang.",
+		Real: append([]string{"internal/caching/backends/remote_wrapper.go", "internal/caching/backends/s3.go (S3Cache key layout; NewS3CacheWithClient)"}, realBuild...), Stub: append([]string{"AWS SDK client: in-memory object store behind the S3Client interface (NewS3Cache's SDK construction replaced)", "GCS backend not simulated (no seam)"}, stubBuild...), Assume: buildAssume, QuickS: 45, ThoroughS: 1200},
 	"C07": {Jobs: []Job{{World: "wbuild", Params: "mode=faults,focus=crash,max_targets=5", Share: 0.8}, {World: "wbuild", Params: "max_targets=5", Share: 0.2}}, Level: "fault_enumeration",
 		Rule: buildRule + faultRule + " C07: after EVERY invocation (also killed ones) an offline audit of the cache directory: every cas/<d> (not tmp-*) hashes to d, every target/<k> decodes and every blob it references (through trees) is present; the follow-up builds must satisfy C01.",
 		Real: realBuild, Stub: stubBuild, Assume: append([]string{"crash model is process death with the page cache intact (kill -9): every completed file-system operation survives; loss of un-fsynced data on power failure is outside the statement and not injected", "a crash also kills the running target shells"}, buildAssume...), QuickS: 45, ThoroughS: 1200},
